@@ -145,15 +145,19 @@ func runC12(c *core.Ctx) {
 	e.RegisterTag("vprobe", func(ctx render.Context) (string, error) {
 		c.Obs("probes_compared", 1)
 		return probeText(func(name string) (gen.V, bool) {
-			x := ctx.Get(name)
-			if fl, ok := x.(map[string]any); ok && name == "forloop" {
-				// the engine's loop record carries private entries; only the documented fields are compared
-				ix, ok1 := gen.FromGo(fl["index"])
-				ln, ok2 := gen.FromGo(fl["length"])
-				if ok1 && ok2 && fl["index"] != nil {
-					return gen.Map(gen.KV{K: "index", V: ix}, gen.KV{K: "length", V: ln}), true
+			if name == "forloop" {
+				// the loop record is read the way a template reads it (forloop.index, forloop.length), not by looking at the Go
+				// value the engine binds: whether that is a map with private entries or a Drop is the engine's business, and only
+				// the documented fields are compared
+				iv, err1 := ctx.EvaluateString("forloop.index")
+				lv, err2 := ctx.EvaluateString("forloop.length")
+				if ix, ok1 := gen.FromGo(iv); err1 == nil && err2 == nil && iv != nil && ok1 {
+					if ln, ok2 := gen.FromGo(lv); ok2 {
+						return gen.Map(gen.KV{K: "index", V: ix}, gen.KV{K: "length", V: ln}), true
+					}
 				}
 			}
+			x := ctx.Get(name)
 			return gen.FromGo(x)
 		}), nil
 	})
